@@ -1,6 +1,6 @@
 (* Exec_C10.v — executable wrappers for the C10 correspondence check. *)
 From Coq Require Import ZArith QArith List.
-From TV Require Import Num NumIv ListNum Model_C10.
+From TV Require Import Num NumIv ListNum Model_C12 Model_C10.
 Import ListNotations.
 
 (* [] = InvalidChemistryException; otherwise the mixing-ratio rows (fill gases first) followed by mu *)
@@ -18,3 +18,7 @@ Definition run_twopoint (P : list I.type) (surf top : I.type) : list (list Z) :=
 
 Definition run_power (P Ts : list I.type) (ms al be ga : I.type) : list (list Z) :=
   map Iout (@power_gas I.type IvTNum P Ts ms al be ga).
+
+(* two-layer gas in log10 space, exact rationals *)
+Definition run_twolayer (lnP : list Q) (start_l end_l : nat) (ls lt : Q) (wsize0 : nat) : list (list Z) :=
+  map Qout (@twolayer_log Q QNum lnP start_l end_l ls lt wsize0).
